@@ -785,6 +785,9 @@ def call_method(E, obj, name, args, kwargs):
         return h(E, [obj] + list(args), kwargs)
     if kind_of(obj) in ("str", "bytes") or isinstance(obj, Opaque_):
         return str_method(E, obj, name, args, kwargs)
+    if isinstance(obj, dict) and name in ("items", "values", "keys") and not args:
+        # concrete table (insertion ordered, as in CPython >= 3.7)
+        return {"items": list(obj.items()), "values": list(obj.values()), "keys": list(obj.keys())}[name]
     raise Unsupported("method %s of %r" % (name, obj))
 
 
